@@ -132,8 +132,10 @@ fn run(ctx: &RunCtx) -> Report {
         }
         report.probe("connectivity_checked", 1);
     }
-    // 4. up to 20 servers: a lookup from any node queries every live server
-    if report.violation.is_none() && !large {
+    // 4. up to 20 servers: a lookup from any node queries every live server (not judged on slow links:
+    //    there a reply can arrive after the requester's current timeout, the lookup then legitimately
+    //    ends without having heard of the nodes listed in it - a false alarm of an earlier version)
+    if report.violation.is_none() && !large && !slow_links {
         let n_lookups = rng.usize(1, 3);
         for _ in 0..n_lookups {
             let from = all[rng.usize(0, all.len() - 1)];
